@@ -1,9 +1,10 @@
 (* C14 - Homogeneous scores scale with their degree and reduce to the named special cases.
    World R, about the GENERATED gen_*_spo (gen/Gen_scoring.v).  h = degree, a = level.
-   Rpower c h = c^h for c > 0 (h = 0 gives 1: scale invariance). *)
+   Rpower c h = c^h for c > 0 (h = 0 gives 1: scale invariance).  Limits are Coquelicot is_lim (value at the point ignored). *)
 From Coq Require Import Reals List Bool.
 Import ListNotations.
-From MD Require Import lib.NumpyR spec.Scores theory.Powers gen.Gen_ident gen.Gen_scoring proofs.ScoreProps proofs.ScoreGen.
+From Coquelicot Require Import Coquelicot.
+From MD Require Import lib.NumpyR spec.Scores theory.Powers gen.Gen_ident gen.Gen_scoring proofs.ScoreProps proofs.ScoreGen proofs.Consistency proofs.ScoreLimits.
 Open Scope R_scope.
 
 (* S(c y, c z) = c^h S(y, z) for every c > 0 and every accepted pair *)
@@ -59,3 +60,50 @@ Theorem C14_hqs_half_symmetric :
   forall h y z s : R, gen_hqs_spo h (1 / 2) y z = Ok s -> s = 1 / 2 * Rabs (Gq h z - Gq h y).
 Proof. exact g_hqs_half. Qed.
 Print Assumptions C14_hqs_half_symmetric.
+
+(* the closed forms at degrees 1 and 0 are the limits of the general formula (hes_general / hqs_general = the expression the code evaluates away from 0 and 1) *)
+Theorem C14_general_formula :
+  forall h y z : R, h <> 0 -> h <> 1 -> 0 <= y -> 0 < z -> breg h y z = hes_general h y z.
+Proof. exact breg_general. Qed.
+Print Assumptions C14_general_formula.
+
+Theorem C14_limit_degree_1 :
+  forall y z : R, 0 <= y -> 0 < z -> is_lim (fun h : R => hes_general h y z) 1 (poisson_form y z).
+Proof. exact hes_limit_degree_1. Qed.
+Print Assumptions C14_limit_degree_1.
+
+Theorem C14_limit_degree_0 :
+  forall y z : R, 0 < y -> 0 < z -> is_lim (fun h : R => hes_general h y z) 0 (gamma_form y z).
+Proof. exact hes_limit_degree_0. Qed.
+Print Assumptions C14_limit_degree_0.
+
+Theorem C14_closed_form_1 :
+  forall y z : R, 0 <= y -> 0 < z -> breg 1 y z = poisson_form y z.
+Proof. exact breg_1. Qed.
+Print Assumptions C14_closed_form_1.
+
+Theorem C14_closed_form_0 :
+  forall y z : R, 0 < y -> 0 < z -> breg 0 y z = gamma_form y z.
+Proof. exact breg_0. Qed.
+Print Assumptions C14_closed_form_0.
+
+Theorem C14_quantile_limit_degree_0 :
+  forall y z : R, 0 < y -> 0 < z -> is_lim (fun h : R => hqs_general h y z) 0 (ln (z / y)).
+Proof. exact hqs_limit_degree_0. Qed.
+Print Assumptions C14_quantile_limit_degree_0.
+
+(* hence the scores are continuous in the degree at 1 and 0 *)
+Theorem C14_score_continuous_in_degree_at_1 :
+  forall a y z : R, 0 <= y -> 0 < z -> is_lim (fun h : R => hes_val h a y z) 1 (hes_val 1 a y z).
+Proof. exact hes_val_limit_degree_1. Qed.
+Print Assumptions C14_score_continuous_in_degree_at_1.
+
+Theorem C14_score_continuous_in_degree_at_0 :
+  forall a y z : R, 0 < y -> 0 < z -> is_lim (fun h : R => hes_val h a y z) 0 (hes_val 0 a y z).
+Proof. exact hes_val_limit_degree_0. Qed.
+Print Assumptions C14_score_continuous_in_degree_at_0.
+
+Theorem C14_quantile_score_continuous_in_degree_at_0 :
+  forall a y z : R, 0 < y -> 0 < z -> is_lim (fun h : R => hqs_val h a y z) 0 (hqs_val 0 a y z).
+Proof. exact hqs_val_limit_degree_0. Qed.
+Print Assumptions C14_quantile_score_continuous_in_degree_at_0.
